@@ -22,6 +22,7 @@
 -/
 import HL.Lemmas.Ranges
 import HL.Lemmas.Completion
+import HL.Model.Parser
 namespace HL.Props.C08
 open HL HL.Ast HL.Text HL.Ranges HL.RangeSpec HL.Lemmas.Ranges HL.Lemmas.Text
 
@@ -451,13 +452,40 @@ example :
     let h : Hit := ⟨.payee, payeeOf tx, estimatePayeeRange tx (payeeOf tx), true⟩
     hitGuard doc h = true ∧ lexSound one doc h.rng "Shop".toList = true := by decide
 
-/-- `; café, k:v`: parseTags adds the BYTE offset of `k` in the comment text (8) to the rune
-    column of the `;`; the tag's name range is sent one column to the right and covers ":". -/
-theorem tag_byte_offsets_counterexample :
+/-- `parseTags` as pinned: the BYTE offsets of the tag inside the comment text were added to the
+    rune column of the `;`. -/
+def tagRangePinned (base : Pos) (tagStart tagEnd : Nat) : Rng :=
+  ⟨⟨base.line, base.col + 1 + tagStart, base.off + 1 + tagStart⟩,
+   ⟨base.line, base.col + 1 + tagEnd, base.off + 1 + tagEnd⟩⟩
+
+/-- `; café, k:v`: as pinned the byte offset of `k` in the comment text (8, one more than its
+    rune offset) was added to the column of the `;`: the tag's name range was sent one column to
+    the right and covered ":".  The repaired parser counts the runes of the text before the tag
+    (fix-tag-columns.diff): name and value are covered exactly. -/
+theorem pinned_tag_byte_offsets_counterexample :
     let doc := "2024-01-15 x ; café, k:v\n".toList
-    let t : Tag := ⟨[107], [118], ⟨⟨1, 23, 22⟩, ⟨1, 26, 25⟩⟩⟩
-    slice doc (toN (astRangeToProtocol (lines doc) (tagNameRng t))) = some ":".toList ∧
-    covers doc (toN (astRangeToProtocol (lines doc) (tagNameRng t))) "k".toList = false := by decide
+    let text : Bytes := " café, k:v".toUTF8.toList
+    let base : Pos := ⟨1, 14, 13⟩
+    let tp : Tag := ⟨[107], [118], tagRangePinned base 8 11⟩
+    slice doc (toN (astRangeToProtocol (lines doc) (tagNameRng tp))) = some ":".toList ∧
+    covers doc (toN (astRangeToProtocol (lines doc) (tagNameRng tp))) "k".toList = false ∧
+    HL.Parser.parseTags text base = [⟨[107], [118], ⟨⟨1, 22, 22⟩, ⟨1, 25, 25⟩⟩⟩] ∧
+    ((HL.Parser.parseTags text base).map fun t =>
+      (covers doc (toN (astRangeToProtocol (lines doc) (tagNameRng t))) "k".toList,
+       covers doc (toN (astRangeToProtocol (lines doc) (tagValueRng t))) "v".toList)) = [(true, true)] := by
+  decide +kernel
+
+/-- Tags after text with characters outside the BMP, a value of non-ASCII letters: every name
+    and value range the server derives from the repaired parser's tags covers its text. -/
+example :
+    let doc := "2024-01-15 x ; 😀 日本, k:  été, e:\n".toList
+    let text : Bytes := " 😀 日本, k:  été, e:".toUTF8.toList
+    let base : Pos := ⟨1, 14, 13⟩
+    ((HL.Parser.parseTags text base).map fun t =>
+      (slice doc (toN (astRangeToProtocol (lines doc) (tagNameRng t))),
+       slice doc (toN (astRangeToProtocol (lines doc) (tagValueRng t))))) =
+      [(some "k".toList, some "été".toList), (some "e".toList, some [])] := by
+  decide +kernel
 
 /-- `k: v`: as pinned the value range started right after the colon and covered " v"; the
     repaired code measures it back from the end of the tag. -/
@@ -468,8 +496,8 @@ theorem pinned_tag_value_leading_blank_counterexample :
     covers doc (toN (astRangeToProtocol (lines doc) (tagValueRng t))) "v".toList = true := by decide
 
 /-- The value range of a tag covers exactly the value whenever the tag's End is the position
-    right after the value on the comment's line (what parseTags computes when only ASCII
-    precedes: see `tag_byte_offsets_counterexample`), however many blanks follow the colon and
+    right after the value on the comment's line (what parseTags computes since it counts
+    runes: see `pinned_tag_byte_offsets_counterexample`), however many blanks follow the colon and
     whatever precedes the tag's end — also for an empty value (empty range at the End). -/
 theorem tagValue_covers (doc : Txt) (t : Tag) (ln pre val suf : Txt)
     (h1 : 1 ≤ t.range.stop.line) (h2 : 1 ≤ t.range.stop.col)
